@@ -29,7 +29,7 @@ ASSUMPTIONS = [
     "families are y - h(y) with h a q-contraction, q <= 0.6 (holomorphic family: q <= 0.35 inside its invariant ball |y| <= 0.5; convex "
     "objectives: Hessian eigenvalues in [0.6, 1.4] + quartic 0.05*z^4)",
     "must-be-silent only when f_tol and x_tol >= 200*eps(dtype)*sqrt(N)*(1+|y*|)/(1-q), maxiter is left at its default (or ample for gd/adam) "
-    "and y0 is not the rounding-level reference solution",
+    "not for broyden1/2 on the holomorphic family (only locally contractive) and not for gd/adam warm starts",
     "float32 cases request f_tol, x_tol in {1e-2, 1e-3}",
     "gd/adam are run with step sizes adapted to the known Hessian bounds (gd 0.3-0.5, adam 3e-2) and maxiter 3000/6000",
     "agreement tolerance: 20*f_tol/(1-q) for the root-finding methods and anderson_acc; 1e-6*(1+|y*|) for gd without momentum (x_rtol=1e-9); "
@@ -81,10 +81,14 @@ def cases(seed, tier):
             d["x_tol"] = rng.choice([None, None, 1e-4, 1e-9, 1e-12])
         d["rtol"] = rng.choice([None, None, None, "f_rtol", "x_rtol"])
         d["maxiter"] = rng.choice([None, None, None, None, "small"])
+        if d["y0"] in ("near", "ref") and d["method"] in ("broyden1", "broyden2") and d["maxiter"] is None:
+            d["maxiter"] = "ample"     # a warm start that fails runs to maxiter (default 100*(N+1)): bound the cost
         d["ls"] = rng.choice([True, False]) if d["method"] in RF else None
         d["placement"] = rng.choice(PLACEMENTS)
         if d["method"] in ("gd", "adam"):
             d["gdclass"] = rng.choice(GD_CLASSES)
+            if d["method"] == "adam" and d["y0"] in ("near", "ref"):
+                d["gdclass"] = "default_tol"   # adam's normalised steps leave a warm start; x_rtol=1e-9 is then not reached in 6000 steps
             d["dtype"] = "float64"
             d["f_tol"], d["x_tol"], d["rtol"] = None, None, None
         out.append(d)
@@ -150,6 +154,8 @@ def run_case(desc):
         y0 = torch.randn(prob.yshape, dtype=dt, generator=tgen)
         if family == "holo":
             y0 = 0.4 * y0 / max(_norm(y0), 1e-30)
+        elif family == "quartic":
+            y0 = y0 / max(_norm(y0), 1e-30)     # the quartic's gradient map is a contraction only for |z| <~ 1.5
     elif mode == "ref":
         y0 = yref.to(dt).clone()
     elif mode == "near":
@@ -184,6 +190,8 @@ def run_case(desc):
             opts["line_search"] = desc["ls"]
         if desc["maxiter"] == "small":
             opts["maxiter"] = rng.choice([1, 2, 3, 4])
+        elif desc["maxiter"] == "ample":
+            opts["maxiter"] = 300
     else:
         if method == "gd":
             if gdclass == "plain_tight":
@@ -307,9 +315,15 @@ def run_case(desc):
                       family=family, y0=mode, gdclass=gdclass, nev=nev, resid=rnorm)
     # ---- must-be-silent classes
     floor = 200 * eps * math.sqrt(N) * scale / (1 - q)
-    must = desc["maxiter"] is None and mode != "ref"
+    must = desc["maxiter"] in (None, "ample")
     if not gd:
         must = must and f_tol >= floor and x_tol >= floor
+        if family == "holo" and method in ("broyden1", "broyden2"):
+            must = False     # contraction only inside the invariant ball; broyden's default first step (length >= 0.5) leaves it
+    else:
+        must = must and mode != "near"
+    if mode == "ref" and desc["rtol"] == "f_rtol":
+        must = False         # f_rtol is relative to |f(y0)|, which is at rounding level here
     if must:
         obs.count("must_silent_cases")
         obs.check(not warned, "not_silent:%s:%s:%s" % (cfg, family, "y0root" if y0_is_root else mode),
